@@ -4,7 +4,7 @@
 # false alarm (or a behavioural difference the refactor introduced - triage by hand)
 D=$1; shift
 N=$(basename $D)
-WT=/tmp/refverify_$N; OUT=/tmp/refverify_out_$N
+WT=/tmp/refverify_${N}_$$; OUT=/tmp/refverify_out_${N}_$$
 rm -rf $OUT; mkdir -p $OUT
 git -C /repo worktree remove --force $WT 2>/dev/null
 git -C /repo worktree add -q $WT HEAD || exit 9
